@@ -1007,8 +1007,13 @@ class NestedCommandsIrcProxy(ReplyIrcProxy):
                         sendMsg(m)
                         return m
                     # The '(XX more messages)' may have not the same
-                    # length in the current locale
-                    allowedLength -= len(_('(XX more messages)')) + 3 # space, bold
+                    # length in the current locale: measure, in bytes, what
+                    # is really appended below.
+                    suffixes = ['(XX %s)' % _('more message'),
+                                '(XX %s)' % _('more messages')]
+                    if minisix.PY3:
+                        suffixes = [x.encode() for x in suffixes]
+                    allowedLength -= max(map(len, suffixes)) + 3 # space, bold
                     chunks = ircutils.wrap(s, allowedLength)
 
                     # Last messages to display at the beginning of the list
